@@ -438,6 +438,44 @@ func runC14(p *core.Prog, r *core.Report) {
 			}
 		})
 		r.Check(ok, "C14.R4", "computeStages/inputs-at-init", "a module none of whose inputs exists at its initial block is rejected with an error before it can be placed", "guard not found or append reachable without it", p.Pos(pc.fn.Pos()))
+		// the flag is the module's own: nothing of it is carried from the previous module of the pass (no phi at the head of
+		// the module loop, no cell written outside the module's iteration)
+		carried := false
+		nFlags := 0
+		core.Instrs(pc.fn, func(in ssa.Instruction) {
+			ifi, isIf := in.(*ssa.If)
+			if !isIf || !pc.modLoop.Body[ifi.Block()] {
+				return
+			}
+			c, _ := core.StripNot(ifi.Cond)
+			ph, isPhi := c.(*ssa.Phi)
+			if !isPhi {
+				return
+			}
+			if b, isB := ph.Type().Underlying().(*types.Basic); !isB || b.Kind() != types.Bool {
+				return
+			}
+			nFlags++
+			seen := map[ssa.Value]bool{}
+			var walk func(v ssa.Value)
+			walk = func(v ssa.Value) {
+				if seen[v] {
+					return
+				}
+				seen[v] = true
+				if x, ok := v.(*ssa.Phi); ok {
+					if x.Block() == pc.modLoop.Header || !pc.modLoop.Body[x.Block()] {
+						carried = true
+						return
+					}
+					for _, e := range x.Edges {
+						walk(e)
+					}
+				}
+			}
+			walk(ph)
+		})
+		r.Check(nFlags > 0 && !carried, "C14.R4", "computeStages/inputs-at-init/per-module", "the `has an input at its initial block` flag starts false for every module (it is not carried over from the previous module examined in the same pass)", "the flag tested for a module can hold the value computed for an earlier module", p.Pos(pc.fn.Pos()))
 		// the initial-block comparison: mod init >= dep init
 		okCmp := 0
 		core.Instrs(pc.fn, func(in ssa.Instruction) {
